@@ -140,7 +140,13 @@ class Thorlabs_MFF10X(QMI_Instrument):
         _logger.info("[%s] Opening connection to instrument", self._name)
         self._check_is_closed()
         self._transport.open()
-        self._transport.discard_read()
+        try:
+            self._transport.discard_read()
+        except Exception:
+            # Close the transport if an error occurred during initialization
+            # of the instrument.
+            self._transport.close()
+            raise
         super().open()
 
     @rpc_method
